@@ -275,6 +275,98 @@ def check_prog(ctx, prog, cases, label):
     cases.append((clist([item_coq(prog, s) for s in prog.body]), want, got, src))
 
 
+# ---------- fixed programs, EXECUTED: which call each played path belongs to ----------
+KA_SRC = """
+@tweezer
+def ka(a: float, b: float):
+    g = grid.from_positions([a, a + 2.0], [b])
+    action.set_loc(g)
+    action.turn_on(action.ALL, [0])
+    action.move(grid.shift(g, b, a))
+    action.turn_off(action.ALL, [0])
+"""
+# another kernel with the SAME name (as a second module or a factory would produce)
+KA2_SRC = """
+@tweezer
+def ka(a: float, b: float):
+    g = grid.from_positions([b], [a, a + 1.0])
+    action.set_loc(g)
+    action.turn_on([0], action.ALL)
+    action.move(grid.shift(g, a, b))
+    action.move(grid.shift(g, a, 2.0 * b))
+    action.turn_off([0], action.ALL)
+"""
+BINDING_SRC = """
+@move{DEC}
+def main({PARAMS}):
+    f = schedule.device_fn(kA, [0, 1], [0])
+    g = schedule.device_fn(kB, [0], [0, 1])
+    f({X}, {Y})
+    f(b={X}, a={Y})
+    f(a={X}, b={Y})
+    g({X}, {Y})
+    g(b={X}, a={Y})
+    with schedule.parallel():
+        f({X}, b={Y})
+        g(b={X}, a={Y})
+        f(b={X}, a={Y})
+        with schedule.parallel():
+            g({X}, {Y})
+        f(a={Y}, b={X})
+    schedule.reverse(f)(b={X}, a={Y})
+    schedule.reverse(f)({X}, {Y})
+"""
+# (kernel, a, b, reversed) per call, as the SOURCE says; X = 1.0, Y = 2.0
+BINDING_WANT = [("A", 1.0, 2.0, False), ("A", 2.0, 1.0, False), ("A", 1.0, 2.0, False), ("B", 1.0, 2.0, False), ("B", 2.0, 1.0, False),
+                [("A", 1.0, 2.0, False), ("B", 2.0, 1.0, False), ("A", 2.0, 1.0, False), ("B", 1.0, 2.0, False), ("A", 2.0, 1.0, False)],
+                ("A", 2.0, 1.0, True), ("A", 1.0, 2.0, True)]
+
+
+def binding_cases(ctx):
+    """fixed kernels in which the same values are written in the same order with DIFFERENT bindings (positional / keyword orders), for two
+    different tweezer kernels that share one name; compiled on six routes and EXECUTED: every play must carry the path of its own call"""
+    from kirin.dialects import ilist
+    from bloqade.shuttle.codegen.taskgen import TraceInterpreter, reverse_path
+    from bloqade.shuttle.dialects.path import Path
+    from gen import tweezer_prog
+    from props import tracer_common as tc
+    from vcommon import events
+    S = tweezer_prog.harness_spec()
+    kA, kB = kernels.define(KA_SRC)["ka"], kernels.define(KA2_SRC)["ka"]
+    tones = {"A": ([0, 1], [0]), "B": ([0], [0, 1])}
+
+    def path_of(c):
+        kern, a, b, rev = c
+        p = TraceInterpreter(S).run_trace({"A": kA, "B": kB}[kern], (a, b), {})
+        return Path(ilist.IList(tones[kern][0]), ilist.IList(tones[kern][1]), reverse_path(p) if rev else p)
+    events._register()
+    want_evs = [("play", events.Group("parallel", tuple(path_of(c) for c in w)) if isinstance(w, list) else path_of(w)) for w in BINDING_WANT]
+    want = events.events_text(want_evs, tc.PosTable())
+    n = 0
+    for operands in ("literal", "run-time"):
+        X, Y, params, args = ("1.0", "2.0", "", ()) if operands == "literal" else ("x", "y", "x: float, y: float", (1.0, 2.0))
+        for dec, plain in (("", False), ("(fold=False)", False), ("(arch_spec=S)", True), ("(arch_spec=S, fold=False)", True), ("(arch_spec=S)", False),
+                           ("(arch_spec=S, aggressive=True)", True)):
+            src = BINDING_SRC.replace("{DEC}", dec).replace("{PARAMS}", params).replace("{X}", X).replace("{Y}", Y)
+            rep = {"binding_src": src, "operands": operands, "plain": plain}
+            ctx.evaluations += 1
+            n += 1
+            try:
+                m = kernels.define(src, kA=kA, kB=kB, S=S)["main"]
+                st, evs, extra = events.run_events(m, args, S, plain=plain)
+            except Exception as e:
+                st, evs, extra = "err", [], f"definition failed: {type(e).__name__}: {e}"
+            got = events.events_text(evs, tc.PosTable()) if st == "ok" else ["ERR " + str(extra)[:100]]
+            if got != want:
+                k = next((j for j in range(min(len(got), len(want))) if got[j] != want[j]), min(len(got), len(want)))
+                ctx.fail({"kind": "played-path-is-not-the-path-of-its-call", "decorator": dec, "operands": operands}, rep,
+                         f"@move{dec} ({operands} operands): play {k} is {(got[k] if k < len(got) else '<none>')[:120]} but the source says "
+                         f"{(want[k] if k < len(want) else '<none>')[:120]}")
+            else:
+                ctx.nt(("binding", dec, operands, plain))
+    ctx.count("fixed binding / same-name programs executed (6 routes x literal / run-time operands)", n)
+
+
 def run(ctx):
     ctx.rule = ("move kernels mixing device calls (positional/keyword in permuted order, forward/reversed/inline-reversed callees), nested "
                 "parallel/auto blocks, gates, fills, measurements, if/for: ALL nesting shapes up to depth/width/call bounds (quick 2/2/4, "
@@ -304,6 +396,7 @@ def run(ctx):
         check_prog(ctx, prog, cases, "rand")
         if i == 0:
             ctx.sample({"kernel": move_prog.render(prog).split("@move")[-1], "lowered": cases[-1][2] if cases else None})
+    binding_cases(ctx)
     chunks = [cases[i:i + 120] for i in range(0, len(cases), 120)]
     bodies = [(f"low_{k}", COQ_IMPORT + "Eval vm_compute in (lines (map (fun p => (show_pitems (compile_impl p) ++ \"##\" ++ show_pitems (compile_spec p))%%string) %s))." %
                clist([c[0] for c in ch])) for k, ch in enumerate(chunks)]
@@ -328,6 +421,15 @@ def run(ctx):
 
 def replay(data):
     inp = data["input"]
+    if "binding_src" in inp:
+        class C:
+            def __init__(s): s.fails, s.evaluations = [], 0
+            def fail(s, sig, rep, what): s.fails.append(what)
+            def nt(s, *a): pass
+            def count(s, *a): pass
+        c = C()
+        binding_cases(c)
+        return bool(c.fails), (c.fails or ["every play carries the path of its own call"])[0][:200]
     m = kernels.define(inp["src"])["main"]
     got, problems = ir_text(m)
     exp = data["signature"].get("expected")
